@@ -15,7 +15,13 @@ from scoda.sequences.sequence import Sequence  # noqa: E402
 def execute(rel):
     line = {"in": rel, "out": [], "out2": [], "raised": ""}
     try:
-        s = Sequence(relative_sequence=RelativeSequence([P.mk(m) for m in rel]))
+        if len(rel) % 3 == 2:
+            # equal letters share ONE Message object (what concatenating a motif with itself produces)
+            cache = {}
+            msgs = [cache.setdefault(json.dumps(m, sort_keys=True), P.mk(m)) for m in rel]
+        else:
+            msgs = [P.mk(m) for m in rel]
+        s = Sequence(relative_sequence=RelativeSequence(msgs))
         line["in"] = [P.msg(m) for m in s.rel._messages]
         s.normalise()
         line["out"] = P.raw_rel(s)
